@@ -232,15 +232,17 @@ func c17Judge(cc *c17Case, verbose bool) ([]string, c17Info) {
 		if !eqStr(setOf(got), setOf(want)) {
 			out = append(out, fmt.Sprintf("completion: for %q the option names offered are %q, want exactly the declared names and aliases starting with %q: %q", last, setOf(got), typed, setOf(want)))
 		}
-		// every offered option is accepted by the parser at that position
-		for _, name := range setOf(got) {
+		// every offered option is accepted by the parser at that position: the candidate exactly as offered
+		// (completed with a value where it needs one) is given to the real parser in the program's own mode
+		for _, l := range lines {
+			name := candName(l)
 			od, ok := lv.keys[name]
 			if !ok {
 				continue
 			}
-			tok := "--" + name
-			if name == "-" {
-				tok = "-"
+			tok := strings.TrimSuffix(l, " ")
+			if i := strings.Index(tok, "="); i >= 0 {
+				tok = tok[:i]
 			}
 			switch {
 			case od.Kind == ph.Int || od.Kind == ph.IntOpt || od.Kind == ph.IntS || od.Kind == ph.Flt || od.Kind == ph.FltOpt || od.Kind == ph.FltS:
@@ -252,11 +254,21 @@ func c17Judge(cc *c17Case, verbose bool) ([]string, c17Info) {
 			case !od.Kind.IsFlag():
 				tok += "=x"
 			}
-			p2 := ph.Build(&d0, nil)
+			p2 := ph.Build(cc.Def, nil)
 			o2 := p2.Run(append(append([]string{}, cc.Earlier...), tok), false)
 			p2.Close()
 			if o2.HasErr {
 				out = append(out, fmt.Sprintf("completion: offered option %q is not accepted by the parser after %q: %s", tok, cc.Earlier, o2.ParseErr))
+				continue
+			}
+			called := name == cc.Def.Help || contains(cc.Def.HelpAliases, name)
+			for path, c := range o2.Called {
+				if c && strings.HasSuffix(path, "/"+od.Name) {
+					called = true
+				}
+			}
+			if !called {
+				out = append(out, fmt.Sprintf("completion: offered option %q, given to the parser after %q, does not set option %q", tok, cc.Earlier, od.Name))
 			}
 		}
 	case strings.HasPrefix(last, "--") && strings.Contains(last, "="):
